@@ -36,7 +36,7 @@ def describe(tier):
                 ") and 00/ff overwrites at " + ("every payload byte <12 then every 41st (ff only)" if tier == "quick" else "every payload byte") +
                 "; payload truncated to " + ("every length <12 then every 61st" if tier == "quick" else "every length <200 then every 3rd") +
                 "; every TLS record's type / version / length field set to boundary values, the record emptied or replaced by short alerts; "
-                "plain HTTP on 443; injected UDP datagrams (all strings <=3 over 11 symbols on 4 tuples; every first byte x 3 "
+                "plain HTTP on 443; structured QUIC long-header datagrams from foreign addresses (8 first bytes x 8 versions incl. 0/2/3/4 x 6 destination-ID shapes x 2 source-ID shapes x 5 bodies, next to an ordinary and a zero-length-ID QUIC bystander, with and without -a; thorough: 27 first bytes); TLS victims end with encrypted closing alerts; injected UDP datagrams (all strings <=3 over 11 symbols on 4 tuples; every first byte x 3 "
                 "bodies x 9 lengths; quick: strings <=2 on 4 tuples, length 3 on one, every first byte x 1 body x 2 lengths). non-trivial: a fault after which "
                 "both bystanders still export data; distinct = distinct (victim, fault)",
         "exhaustive": True,
